@@ -356,3 +356,19 @@ Proof.
 Qed.
 
 End Query.
+
+(* a NUL byte inside an index key breaks the (key, id) order of the layout:
+   ("a", "2") < ("a\0", "1") as pairs, but "a\0\0" ++ "1" < "a\0" ++ "2" as laid-out keys *)
+Lemma nul_key_order_refuted_pf :
+  exists (ix : index bytes) (ms : list (mutation bytes)) (q : iquery bytes),
+    qidx q = ix /\ muts_ids_nul_free ms = true /\
+    let '(st, d, _) := run_history [ix] 0 ms in
+    entries_nul_free (entries_of ix st) = false /\
+    forallb (fun e => nul_free (snd e)) (entries_of ix st) = true /\
+    sortedb d = true /\
+    fetch_collection d q <> FOk (spec_query q (entries_of ix st)).
+Proof.
+  exists (Index [110] (fun v => Some v)), [MCreate [50] [97]; MCreate [49] [97; 0]].
+  exists (IQ (Index [110] (fun v => Some v)) [] None 0%Z (-1)%Z false).
+  vm_compute. repeat split; try reflexivity. discriminate.
+Qed.
